@@ -94,7 +94,7 @@ CHECKS.update({
              "shortened, lengthened and 31..34-element proofs, for both verifiers, and checks that the intended verifier "
              "agrees with the declarative meaning (VerifyIff, LastIff, CreatedProofVerifies, LengthLimit, AlteredRejected); "
              "every case is concretised with real hashes and the verdicts of check_proof / check_proof_last, the created "
-             "proof and the root are compared with the spec's.",
+             "proof and the root are compared with the spec's. Genuine proofs of the maximal length with one more element appended must be rejected (not truncated).",
         note="SHA-256 collision resistance trusted; tree sizes bounded (structured families, not all of 1..1024); " + TB,
         technique="TLA+ spec over an ideal hash + TLC case enumeration + spec->code case replay",
         design="4 C15"),
@@ -149,7 +149,7 @@ CHECKS.update({
              "k<=8 and emits each case; every shipped strategy (as built by Rotor::new/new_fa1, Turbine, ...) is constructed "
              "twice and drawn for several seeds per case and compared; draws over generated distributions (equal, heavy-tailed, "
              "dominant, Total/k-boundary, lamport scale; N up to 2000) are recorded and each event is judged by TLC "
-             "(Trace_Sampler.tla).",
+             "(Trace_Sampler.tla). WeightedShuffle (Turbine): permutation incl. zero-stake validators last, prefix / continuation / removal consistency, determinism, constructible for every validator count 1..300 (thorough: up to 4120 and lamport scale).",
         note="floor guarantee decided by TLC only for stake*k < 2^31; random sources sampled (seeds); five constructor/rejection "
              "panics are recorded as known findings (C17-*), three were fixed; statistical quality not judged",
         technique="declarative TLA+ predicates; TLC small-case enumeration + spec->code case replay; code->spec trace validation of recorded draws",
@@ -229,7 +229,7 @@ CHECKS.update({
              "instances switched with with_sampler / with_fanout after routing under an outdated configuration) run on a "
              "recording network; TLC validates every recorded send against the spec with the routing function UNLOGGED (inferred "
              "from first use): any instance acting inconsistently is an agreement divergence, the delivery predicates are evaluated "
-             "at run end.",
+             "at run end. Node level: fault-free executions of full nodes (consensus.rs glue: validate, forward - incl. the leader relaying its own shreds -, store) in which every shred of every finalized slot must be scheduled for every validator other than the leader.",
         note="agreement is observed through the destinations of network sends; epochs sampled up to N=64, no faults/losses (the "
              "property is about fault-free runs); the Rotor::new_fa1 constructor panic for some stake vectors is a known finding "
              "(same root cause as C17-partition-empty-bins)",
@@ -248,7 +248,7 @@ CHECKS.update({
              "transcription of the pre-repair code to violate them. Every transition is replayed through hooks into the real "
              "Repair, BlockstoreImpl and RepairRequestHandler::run task (requests on the wire, Block events, panics, projected "
              "state, answers verified with the real check_proof(_last)/ValidatedShred); responder cases and hostile scripts run "
-             "through the real handlers and the real repair_loop with its timers.",
+             "through the real handlers and the real repair_loop with its timers. A Byzantine peer answering with an authentic shred whose unauthenticated data/coding tag is flipped is an answer class of its own: refused, nothing stored, request still outstanding, the leader never reported (CorrectLeaderNeverFlaggedByRepair).",
         note="blocks of 1-3 slices, shreds in groups, one block under repair; oldest-first timeout order and concurrent repairs not "
              "covered; hash / signature breaks out of scope; " + TB,
         technique="TLA+ spec + TLC exhaustive BFS (safety, action properties, deadlock-based progress) + spec->code transition / case / script replay",
@@ -282,7 +282,7 @@ CHECKS.update({
              "NoBlockAfterInvalid, MalformedFlagged in either arrival order, ServesAll, FastPathEqualsFollower); every transition "
              "is replayed into a real BlockstoreImpl with slices shredded by the real shredder and signed by a leader key, comparing "
              "return values, events, the announced block, the Pool::add_block hand-over, the projected state, and after completion "
-             "all shreds / slice roots / proofs served.",
+             "all shreds / slice roots / proofs served. The repair spot of the same block hash is modelled next to the dissemination spot (RepairStep in any interleaving, getters resolved as in the code): a block is served once EITHER spot completed it, whatever the other holds.",
         note="one slot, dissemination spot only (repair spots: C14), <= 3 slices, five fixed groupings of shred indices; the node's "
              "ingest glue (consensus.rs) is transcribed in the driver, the real one is exercised by the simulator (C01/C10); " + TB,
         technique="TLA+ spec + TLC exhaustive BFS + spec->code transition replay",
